@@ -31,6 +31,19 @@ CLAIM = {
 KF_LOAD = "KF-loadmany-same-name"
 
 
+def _show(res):
+    """readable form of a probe result: 'err:<type>=<hex of Error()>:<hex of the destination dump>' -> type + decoded text"""
+    try:
+        if res.startswith("err:") and "=" in res:
+            t, rest = res[4:].split("=", 1)
+            h = rest.split(":", 1)[0].rstrip(".")
+            h = h[:len(h) // 2 * 2]
+            return "error %s %r" % (t, bytes.fromhex(h).decode("utf8", "replace")[:110])
+    except Exception:
+        pass
+    return res[:60]
+
+
 def _run_model(mexe, cases, real, what, problems, mism):
     rc, out = c.sh([mexe], input=open(cases).read(), timeout=1200, check=False)
     rl = open(real).read().splitlines()
@@ -207,7 +220,7 @@ def run(ctx):
                 seen_known.setdefault(k, d)
             else:
                 real_fail.append(("the result of %s depends on what the process did before (%s vs %s after: %s)" % (
-                    d["history_readable"][-1], d["result_without_history"][:60], d["result_after_history"][:60],
+                    d["history_readable"][-1], _show(d["result_without_history"]), _show(d["result_after_history"]),
                     "; ".join(d["history_readable"][:-1])[:300]), d))
 
     ctx.cov["evaluations"] = evals
